@@ -525,7 +525,15 @@ func (c *client) receive(r io.Reader) (err error) {
 
 	select {
 	case <-rpc.Context().Done():
-		// context has expired, don't bother deserializing
+		// context has expired, don't bother deserializing. Nobody waits for
+		// this response, but an exception that says the server is going
+		// down still has to fail the connection for everybody else.
+		if header.Exception != nil {
+			if serr, ok := exceptionToError(header.Exception.GetExceptionClassName(),
+				header.Exception.GetStackTrace()).(ServerError); ok {
+				return serr
+			}
+		}
 		return
 	default:
 	}
